@@ -8,6 +8,7 @@ package main
 import (
 	"encoding/json"
 	"fmt"
+	"math"
 
 	"github.com/advancedclimatesystems/gonnx"
 	"github.com/advancedclimatesystems/gonnx/onnx"
@@ -68,6 +69,9 @@ func diffSnapshots(before, after []Snapshot) string {
 
 func execOpAPI(c *Case) Observation { return execOpAPISpare(c, false) }
 
+// cloneOperands: every operand is a Clone() of the constructed tensor - what a caller holds after copying a tensor, and what an
+// element-wise node hands on: its shape and stride slices come from append and may have spare capacity.
+
 // execOpAPISpare: with spare, the input list is a prefix of a longer buffer whose spare capacity holds stale tensors of an
 // earlier use (an int64 axes-like tensor and copies of the inputs): omitted trailing optional inputs are absent all the same.
 func execOpAPISpare(c *Case, spare bool) Observation {
@@ -79,6 +83,15 @@ func execOpAPISpare(c *Case, spare bool) Observation {
 	inputs, err := mkInputs(c)
 	if err != nil {
 		return Observation{Kind: "harness", Note: err.Error()}
+	}
+	if spare && cloneOperandsFor(c) {
+		for i, t := range inputs {
+			if t != nil {
+				if cl, ok := t.Clone().(tensor.Tensor); ok {
+					inputs[i] = cl
+				}
+			}
+		}
 	}
 	if spare {
 		buf := make([]tensor.Tensor, len(inputs), len(inputs)+10)
@@ -116,6 +129,94 @@ func execOpAPISpare(c *Case, spare bool) Observation {
 	obs.Changed = diffSnapshots(before, snapshotAll(inputs))
 	return obs
 }
+
+// shareAttrBacking re-homes the list-valued attributes of a node in ONE array per element type: every list is a sub-slice whose
+// spare capacity runs over the lists that follow it (a proto built by hand from one parameter vector looks like this). Returns a
+// function that reports whether any attribute value has changed since.
+func shareAttrBacking(node *onnx.NodeProto) (changed func() string, any bool) {
+	var fl []float32
+	var in []int64
+	for _, a := range node.Attribute {
+		fl = append(fl, a.Floats...)
+		in = append(in, a.Ints...)
+	}
+	if len(fl)+len(in) == 0 {
+		return nil, false
+	}
+	fl = append(make([]float32, 0, len(fl)+4), fl...)
+	in = append(make([]int64, 0, len(in)+4), in...)
+	fo, io := 0, 0
+	for _, a := range node.Attribute {
+		if n := len(a.Floats); n > 0 {
+			a.Floats = fl[fo : fo+n]
+			fo += n
+		}
+		if n := len(a.Ints); n > 0 {
+			a.Ints = in[io : io+n]
+			io += n
+		}
+	}
+	wantF, wantI := append([]float32{}, fl...), append([]int64{}, in...)
+	return func() string {
+		for i := range wantF {
+			if math.Float32bits(fl[i]) != math.Float32bits(wantF[i]) {
+				return fmt.Sprintf("float attribute storage changed at offset %d: %v -> %v", i, wantF[i], fl[i])
+			}
+		}
+		for i := range wantI {
+			if in[i] != wantI[i] {
+				return fmt.Sprintf("integer attribute storage changed at offset %d: %v -> %v", i, wantI[i], in[i])
+			}
+		}
+		return ""
+	}, true
+}
+
+// execOpAPISharedAttrs: the operator is initialised from a node whose attribute lists share one array (see shareAttrBacking),
+// twice (a model initialises a node's operator on every Run), and applied; the node must still hold its attribute values.
+func execOpAPISharedAttrs(c *Case) (Observation, bool) {
+	ins, outs := ioNames(c)
+	node, err := mkNode(c.Op, c.Attrs, ins, outs)
+	if err != nil {
+		return Observation{Kind: "harness", Note: err.Error()}, false
+	}
+	changed, ok := shareAttrBacking(node)
+	if !ok {
+		return Observation{}, false
+	}
+	inputs, err := mkInputs(c)
+	if err != nil {
+		return Observation{Kind: "harness", Note: err.Error()}, false
+	}
+	var obs Observation
+	for k := 0; k < 2; k++ {
+		obs = guard(func() Observation {
+			op, err := opset13.GetOperator(c.Op)
+			if err != nil {
+				return observeErr(err)
+			}
+			if err := op.Init(node); err != nil {
+				return observeErr(err)
+			}
+			v, err := op.ValidateInputs(inputs)
+			if err != nil {
+				return observeErr(err)
+			}
+			res, err := op.Apply(v)
+			if err != nil {
+				return observeErr(err)
+			}
+			return valueObs(res)
+		})
+		if d := changed(); d != "" {
+			return Observation{Kind: "nil", Note: "the node's attributes were modified: " + d}, true
+		}
+	}
+	return obs, true
+}
+
+// cloneOperandsFor: the spare-capacity mode also uses cloned operands (unless two positions must be one object)
+func cloneOperandsFor(c *Case) bool { return len(c.Same) == 0 }
 
 // execOpAPIRefilled: ONE operator instance is applied to the input tensor objects while they hold other float values, the caller
 // then refills the same objects with the values of the case, and the same instance is applied again; the second result is
@@ -394,6 +495,28 @@ func execOpCase(c *Case) []ModeResult {
 	if r := execTiled(c); r != nil {
 		out = append(out, *r)
 	}
+	if c.Repeat > 1 {
+		// an operator is a function of its operands: the same case, executed again and again on fresh instances and fresh
+		// tensors, returns the same bits every time (whichever of several allowed values it is)
+		first := ""
+		verdict := "pass"
+		for k := 1; k <= c.Repeat && verdict == "pass"; k++ {
+			o := execOpAPI(c)
+			sig := o.Kind + ":" + o.Errc
+			if o.Kind == "value" {
+				for _, t := range o.Value {
+					sn := TakeSnapshot(t)
+					sig += sn.String() + sn.Bits + ";"
+				}
+			}
+			if k == 1 {
+				first = sig
+			} else if sig != first {
+				verdict = fmt.Sprintf("violation:execution %d of %d returned other bits than the first one: %.300s instead of %.300s", k, c.Repeat, sig, first)
+			}
+		}
+		out = append(out, ModeResult{"api:repeated-bitwise", verdict, ""})
+	}
 	for _, m := range modes {
 		switch m {
 		case "api":
@@ -404,6 +527,9 @@ func execOpCase(c *Case) []ModeResult {
 				out = append(out, ModeResult{"api:same-tensors-twice", Verdict(c, o2), o2.Short()})
 				o6 := execOpAPISpare(c, true)
 				out = append(out, ModeResult{"api:spare-capacity", Verdict(c, o6), o6.Short()})
+				if o8, ok := execOpAPISharedAttrs(c); ok {
+					out = append(out, ModeResult{"api:attributes-in-one-array", Verdict(c, o8), o8.Short()})
+				}
 				if o7, ok := execOpAPIRefilled(c); ok {
 					out = append(out, ModeResult{"api:one-instance-buffers-refilled", Verdict(c, o7), o7.Short()})
 				}
